@@ -390,6 +390,22 @@ Definition hop_fault (pf : pfault) : bool :=
 Definition alert_req_ok (pf : pfault) (trq : option (N * N)) : bool :=
   match pf, trq with PAlert _ _ _, None => false | _, _ => true end.
 
+(** exactly one router-alert flag is set, and it is the flag of an interface the path crosses:
+    the ingress interface of a hop reached from the previous AS, or the egress interface of
+    a hop left for the next AS *)
+Definition alert_on_path (p : prov) (pf : pfault) : bool :=
+  match pf with
+  | PAlert kx ia_ ea =>
+    let ingress_flag := if cons p kx then ia_ else ea in
+    let egress_flag := if cons p kx then ea else ia_ in
+    (kx <? nhops p)%nat &&
+    (ingress_flag && negb egress_flag && (1 <=? kx)%nat && crosses p (kx - 1)
+     || egress_flag && negb ingress_flag && (S kx <? nhops p)%nat && crosses p kx)
+  | _ => false
+  end.
+
+Definition is_alert (pf : pfault) : bool := match pf with PAlert _ _ _ => true | _ => false end.
+
 (** the source host is an IP host the reply can be delivered to *)
 Definition src_ip_ok (pp : pparams) : bool :=
   match parse_host (pp_src_type pp) (pp_src_raw pp) with
@@ -519,7 +535,10 @@ Definition check (c : case) : N :=
          sent srt fwd oloc oin ores raw oreply oback =>
     let m := model_ret t hosts now now' macs p pp pf fa tc flow next qoff srt raw in
     let valid := valid_ret t now now' macs p pp ka kc how in
-    let scope := clean_fault t p pf fa ka kc how && alert_req_ok pf trq || hop_fault pf in
+    (* a traceroute request with the flag of an interface of the path is in scope wherever it
+       was answered (the oracle demands that it is the owner of the interface) *)
+    let scope := (if is_alert pf then alert_on_path p pf && alert_req_ok pf trq
+                  else clean_fault t p pf fa ka kc how) || hop_fault pf in
     Check.verdict
       (pkt_eqb (apply_pfault pf (render p pp 0 false)) sent &&
        walk_eqb (m_fwd m) fwd &&
@@ -542,6 +561,8 @@ Definition check (c : case) : N :=
       (pkt_eqb s sent && walk_eqb (map fst (fst w), to_final (snd w)) fwd &&
        option_eqb pkt_eqb (last_pkt w) (Some last) && Bool.eqb valid ev)
       (negb valid ||
+       (* nobody had to answer: the flag is not the flag of an interface of the path *)
+       negb (alert_on_path p pf) &&
        match find_as t (pp_dst_ia pp) with
        | Some a => delivered_to fwd (pp_dst_ia pp) (deliver_target a pp)
        | None => false
